@@ -241,7 +241,7 @@ func complextofloat(t types.Type) types.Type {
 // components). If it is, it returns the basic type for t, otherwise returns
 // nil.
 func toprimitive(t types.Type) *types.Basic {
-	switch b := t.(type) {
+	switch b := t.Underlying().(type) {
 	case *types.Basic:
 		if (b.Info() & (types.IsString | types.IsComplex)) == 0 {
 			return b
